@@ -293,9 +293,11 @@ class World:
         self._done(op)
         return pipe
 
-    def do_start_tls(self, stream, ssl_context, server_hostname, timeout):
+    def do_start_tls(self, stream, ssl_context, server_hostname, timeout, alpn_at_call="unset"):
         pipe = stream.pipe
-        alpn = getattr(ssl_context, "alpn", None)
+        # the real backends read the context's ALPN list when start_tls() is CALLED (wrap_bio / wrap_socket run before the first
+        # suspension), not when the handshake completes: the list is captured by the stream wrappers before any gate
+        alpn = getattr(ssl_context, "alpn", None) if alpn_at_call == "unset" else alpn_at_call
         op = self._rec("start_tls", pipe, server_hostname=server_hostname, timeout=timeout,
                        alpn=None if alpn is None else list(alpn), ctx=getattr(ssl_context, "name", type(ssl_context).__name__),
                        layer=stream.layer, at_written=len(pipe.written))
@@ -489,9 +491,11 @@ class SimStream(httpcore.NetworkStream):
         self.world.do_close(self)
 
     def start_tls(self, ssl_context, server_hostname=None, timeout=None):
+        alpn = getattr(ssl_context, "alpn", None)
+        alpn = None if alpn is None else list(alpn)
         if self.world.sgate:
             self.world.sgate("start_tls", self.pipe, self)
-        sel = self.world.do_start_tls(self, ssl_context, server_hostname, timeout)
+        sel = self.world.do_start_tls(self, ssl_context, server_hostname, timeout, alpn_at_call=alpn)
         return SimStream(self.world, self.pipe, self.layer + 1, SSLObj(sel))
 
     def get_extra_info(self, info: str) -> typing.Any:
@@ -547,9 +551,11 @@ class AsyncSimStream(httpcore.AsyncNetworkStream):
             await self.world.agate("closed", self.pipe, None)
 
     async def start_tls(self, ssl_context, server_hostname=None, timeout=None):
+        alpn = getattr(ssl_context, "alpn", None)
+        alpn = None if alpn is None else list(alpn)
         if self.world.agate:
             await self.world.agate("start_tls", self.pipe, {"timeout": timeout})
-        sel = self.world.do_start_tls(self, ssl_context, server_hostname, timeout)
+        sel = self.world.do_start_tls(self, ssl_context, server_hostname, timeout, alpn_at_call=alpn)
         return AsyncSimStream(self.world, self.pipe, self.layer + 1, SSLObj(sel))
 
     def get_extra_info(self, info: str) -> typing.Any:
